@@ -1,7 +1,7 @@
 SPECIFICATION Spec
 CONSTANTS
   Peers <- MCPeers
-  Durs <- MCDursT
+  Durs <- MCDurs
   Steps <- MCStepsT
   MaxNow = 9
 INVARIANTS TypeOK BlockedWhenRequested UnblockedOtherwise AnswersOK
